@@ -647,7 +647,7 @@ func runE2E(s *e2eScenario) (string, cf.Sidecar) {
 		markerAccepted = true // evaluate nothing else in this scenario
 		hmu.Unlock()
 	}
-	defer func() { sarama.PanicHandler = nil }()
+	// (left installed: a goroutine of a scenario that was given up may still panic later; the next scenario replaces it)
 	if traceE2E {
 		sarama.VerifC04Trace(func(line string) { fmt.Fprintln(os.Stderr, "TRACE", line) })
 	}
